@@ -22,7 +22,7 @@ def tables():
 
 def gen(rng, tier):
     cases = []
-    n1 = 700 if tier == "quick" else 20000
+    n1 = 1500 if tier == "quick" else 20000
     # systematic: every operator spelling on int/float/zero values
     for op in vals.OPS:
         for v in (0, 1, -1):
@@ -45,13 +45,13 @@ def gen(rng, tier):
         cases.append({"kind": "cmp", "env": env, "cur": cur, "c": vals.rnd_comparison(rng)})
     for _ in range(n1):
         cases.append({"kind": "cond", "env": vals.rnd_env(rng), "d": vals.rnd_condition(rng)})
-    n2 = 500 if tier == "quick" else 15000
+    n2 = 1500 if tier == "quick" else 15000
     for _ in range(n2):
         env = vals.rnd_env(rng, numeric_only=rng.random() < 0.7)
         depth = rng.choice([0, 1, 2, 3] if tier == "quick" else [0, 1, 2, 3, 4, 5])
         b = ["cond", vals.rnd_condition(rng, ("A", "B", "C"))] if rng.random() < 0.15 else ["tree", vals.rnd_bx(rng, depth)]
         cases.append({"kind": "bexpr", "env": env, "b": b})
-    n3 = 250 if tier == "quick" else 6000
+    n3 = 600 if tier == "quick" else 6000
     for _ in range(n3):
         env = vals.rnd_env(rng, numeric_only=True)
         entries = []
